@@ -1,6 +1,7 @@
 (* Model/C08Loop.v — the column loop of ktensor.fixsigns(other), literally (wave 3b):
 
-     for r in range(RB):
+     for r in range(min(RA, RB)):                  (/repo 8ac87f0: a reference with more components than self — only the
+                                                    first RA have a counterpart; before the repair: range(RB), IndexError)
          sgn_score[n] = self.factor_matrices[n][:, r].T @ other.factor_matrices[n][:, r]        (n in range(N))
          sort_idx = np.argsort(sgn_score); sort_sgn_score = sgn_score[sort_idx]
          breakpt / endpt arithmetic                                                            (py_endpt, Model/C08More.v)
@@ -31,6 +32,6 @@ Definition py_fso_step (B : ktensor V) (w : list V) (As : list mat) (r : nat) : 
   fold_left (fun As' n => upd_nth n (neg_col r) As') (firstn e idx) As.
 (* the whole loop, both operands already normalised *)
 Definition py_fixsigns_other_core (A B : ktensor V) : ktensor V :=
-  mkK (kweights A) (fold_left (py_fso_step B (kweights A)) (seq 0 (krank B)) (kfactors A)).
+  mkK (kweights A) (fold_left (py_fso_step B (kweights A)) (seq 0 (Nat.min (krank A) (krank B))) (kfactors A)).
 End Loop.
 End L8.
